@@ -28,6 +28,7 @@ def run(tier, seed):
         "HashSet<Loc> key model (axiom_loc_key_model)",
     ]
     cov["trusted_base"] = assumptions
+    cov["backend"] = "Verus 0.2026.09.13 / Z3"
     if nat:
         cov["bounded_counterexample_search"] = {k: nat.get(k) for k in ("evaluations", "distinct_nontrivial", "rule", "bound", "wall_s")}
         cov["samples"] = nat.get("samples", [])[:3]
